@@ -1,6 +1,8 @@
 """Unit `stack`: marwood/src/vm/stack.rs — the VM stack and continuation capture / restore (C05, C07, C12)."""
 
 PRELUDE = r'''
+/// the target is 64-bit (x86_64): needed for the i64 <-> usize casts of Stack::get_offset
+global size_of usize == 8;
 pub assume_specification<T: Clone + core::marker::Destruct> [<[T]>::clone_from_slice] (dst: &mut [T], src: &[T])
    requires old(dst)@.len() == src@.len() ensures final(dst)@ == src@;
 pub assume_specification<T: Clone> [<[T]>::to_vec] (s: &[T]) -> (r: Vec<T>) ensures r@ == s@;
@@ -40,6 +42,34 @@ UNITS = [{
             'ensures': [(S5, 'final(self).wf() && final(self).sp_spec() == old(self).sp_spec() && final(self).cells().len() == 2 * old(self).cells().len()'),
                         (S5, 'final(self).cells().subrange(0, old(self).cells().len() as int) == old(self).cells()')],
         },
+        # accessors used by the instruction loop (run_one): exact results, `get_mut` changes exactly the addressed slot
+        'impl Stack::get': {
+            'props': ['C04', 'C06'],
+            'ensures': [(['C04'], 'index < self.cells().len() ==> (r matches Ok(c) && *c == self.cells()[index as int])'),
+                        (['C04'], 'index >= self.cells().len() ==> r is Err')],
+        },
+        'impl Stack::get_sp': {'props': ['C04', 'C06'], 'ensures': [(['C04'], 'r == self.sp_spec()')]},
+        'impl Stack::get_offset': {
+            'props': ['C04', 'C06'],
+            'requires': ['self.sp_spec() <= i64::MAX / 2', 'i64::MIN / 2 <= offset <= i64::MAX / 2'],
+            'ensures': [(['C04'], '0 <= self.sp_spec() + offset < self.cells().len() ==> (r matches Ok(c) && *c == self.cells()[self.sp_spec() + offset])')],
+        },
+        'impl Stack::get_mut': {
+            'props': ['C04', 'C06'],
+            'ensures': [(['C04'], 'index >= old(self).cells().len() ==> r is Err && final(self).cells() == old(self).cells() && final(self).sp_spec() == old(self).sp_spec()'),
+                        (['C04'], '''index < old(self).cells().len() ==> (r matches Ok(c) && *c == old(self).cells()[index as int]
+                            && final(self).cells() == old(self).cells().update(index as int, *final(c)) && final(self).sp_spec() == old(self).sp_spec())''')],
+        },
+        'impl Stack::get_offset_mut': {
+            'props': ['C04', 'C06'],
+            'requires': ['old(self).sp_spec() <= i64::MAX / 2', 'i64::MIN / 2 <= offset <= i64::MAX / 2'],
+            'ensures': [(['C04'], '''0 <= old(self).sp_spec() + offset < old(self).cells().len() ==> (r matches Ok(c) && *c == old(self).cells()[old(self).sp_spec() + offset]
+                            && final(self).cells() == old(self).cells().update(old(self).sp_spec() + offset, *final(c)) && final(self).sp_spec() == old(self).sp_spec())''')],
+        },
+        'impl Stack::get_sp_mut': {
+            'props': ['C04', 'C06'],
+            'ensures': [(['C04'], '*r == old(self).sp_spec() && final(self).sp_spec() == *final(r) && final(self).cells() == old(self).cells()')],
+        },
         'impl Stack::pop': {
             'props': S5 + ['C06'],
             'requires': ['old(self).wf()'],
@@ -55,6 +85,9 @@ UNITS = [{
             'ensures': [
                 (S5, 'final(self).wf() && final(self).sp_spec() == old(self).sp_spec() + 1 && final(self).cells().len() >= old(self).cells().len()'),
                 (S5, 'final(self).cells().subrange(0, old(self).sp_spec() + 1) == old(self).live()'),
+                (['C04'], 'old(self).sp_spec() + 1 < old(self).cells().len() ==> final(self).cells().len() == old(self).cells().len()'),
+                # exactly one slot is written: every other existing slot, above the new top as well, keeps its content
+                (['C04'], 'forall|j: int| 0 <= j < old(self).cells().len() && j != old(self).sp_spec() + 1 ==> final(self).cells()[j] == old(self).cells()[j]'),
                 (S5, '<T as vstd::std_specs::convert::IntoSpec<VCell>>::obeys_into_spec() ==> final(self).cells()[final(self).sp_spec() as int] == <T as vstd::std_specs::convert::IntoSpec<VCell>>::into_spec(vcell)'),
             ],
             'decreases': '(if old(self).sp_spec() + 1 < old(self).cells().len() { 0int } else { 1int })',
